@@ -73,6 +73,26 @@ fn build_one(attr: StunAttribute) -> Built {
     Built { msg, m, c, tid }
 }
 
+/// Round-trip queries use a CONCRETE (method, class) per instance: with symbolic type bits the decoder's
+/// header check keeps an error path alive whose merge makes the length field symbolic for the symbolic
+/// executor; the attribute loop is then unwound to the bound with every decoder in each iteration
+/// (2.3 M steps for a 20-byte message against 20 k with a concrete type).  Type bits for all 16384
+/// pairs: c02_message_type_bits; symbolic method/class on the encoder side: c14_msg_*.
+fn build_one_typed(attr: StunAttribute, m: u16, c: u8) -> Built {
+    let cls = match c & 3 {
+        0 => MessageClass::Request,
+        1 => MessageClass::Indication,
+        2 => MessageClass::SuccessResponse,
+        _ => MessageClass::ErrorResponse,
+    };
+    let tid: [u8; 12] = kani::any();
+    let msg = StunMessageBuilder::new(MessageMethod(m & 0x0fff), cls)
+        .with_transaction_id(TransactionId::from(tid))
+        .with_attribute(attr)
+        .build();
+    Built { msg, m: m & 0x0fff, c: (c & 3) as u16, tid }
+}
+
 fn check_header(buf: &[u8; MCAP], b: &Built, attr_bytes: usize) {
     let t = type_bits(b.m, b.c);
     assert!(buf[0] == (t >> 8) as u8 && buf[1] == t as u8, "C02: message type");
@@ -120,6 +140,10 @@ fn encode_discipline(b: &Built, code: u16, vlen: usize) {
 
 /// C01 + C02: encode into a large buffer, then decode exactly the produced bytes; then decode
 /// again with the padding bytes replaced by arbitrary values
+static mut EXPECTED_CODE: u16 = 0;
+fn expected_code() -> u16 {
+    unsafe { EXPECTED_CODE }
+}
 fn round_trip<F: Fn(&StunAttribute)>(b: &Built, vlen: usize, same: F) {
     let pad = (4 - (vlen & 3)) & 3;
     let needed = 20 + 4 + vlen + pad;
@@ -139,10 +163,33 @@ fn round_trip<F: Fn(&StunAttribute)>(b: &Built, vlen: usize, same: F) {
         kani::assume(j < pad);
         buf[24 + vlen + j] = kani::any(); // receivers must ignore padding (RFC 8489 §14)
     }
+    // The framing bytes the encoder wrote are asserted to be the expected constants and then re-written
+    // as those constants (the buffer is unchanged, but the symbolic executor now sees literals: the
+    // encoder writes them at offsets it derives from a Result-merged accumulator, which makes every
+    // byte of the buffer symbolic for constant folding and the decode that follows intractable).
+    let t = type_bits(b.m, b.c);
+    assert!(buf[0] == (t >> 8) as u8 && buf[1] == t as u8, "C02: message type");
+    assert!(buf[2] == ((needed - 20) >> 8) as u8 && buf[3] == (needed - 20) as u8, "C02: length field");
+    assert!(buf[4] == 0x21 && buf[5] == 0x12 && buf[6] == 0xa4 && buf[7] == 0x42, "C02: magic cookie");
+    assert!(buf[22] == (vlen >> 8) as u8 && buf[23] == vlen as u8, "C02: attribute length");
+    let code = ((buf[20] as u16) << 8) | buf[21] as u16;
+    assert!(code == expected_code(), "C02: attribute type code");
+    buf[0] = (t >> 8) as u8;
+    buf[1] = t as u8;
+    buf[2] = ((needed - 20) >> 8) as u8;
+    buf[3] = (needed - 20) as u8;
+    buf[4] = 0x21;
+    buf[5] = 0x12;
+    buf[6] = 0xa4;
+    buf[7] = 0x42;
+    buf[20] = (expected_code() >> 8) as u8;
+    buf[21] = expected_code() as u8;
+    buf[22] = (vlen >> 8) as u8;
+    buf[23] = vlen as u8;
     let dec = MessageDecoderBuilder::default().build();
-    match dec.decode(&buf[..n]) {
+    match dec.decode(&buf[..needed]) {
         Ok((m2, used)) => {
-            assert!(used == n, "C01: decoder consumes what the encoder produced");
+            assert!(used == n && used == needed, "C01: decoder consumes what the encoder produced");
             assert!(m2.method().as_u16() == b.m && m2.class() == b.msg.class(), "C01: method/class");
             let j: usize = kani::any();
             kani::assume(j < 12);
@@ -193,7 +240,8 @@ macro_rules! one_attr {
         #[kani::stub(crate::registry::get_handler, $reg)]
         fn $rt() {
             let (attr, orig) = $mk;
-            let b = build_one(attr);
+            let b = build_one_typed(attr, $code as u16, $vlen as u8);
+            unsafe { EXPECTED_CODE = $code; }
             round_trip(&b, $vlen, |a: &StunAttribute| ($same)(a, &orig));
             std::mem::forget(b);
         }
